@@ -148,7 +148,7 @@ def run(tier, seed, replay=None):
     rng = random.Random(seed)
     events = 0
     n = 1500 if tier == "quick" else 15000
-    hs = [exgen.history(rng, fractional=(i % 4 != 0)) for i in range(n)]
+    hs = [exgen.delay_start_fail(rng) if i % 15 == 7 else exgen.history(rng, fractional=(i % 4 != 0)) for i in range(n)]
     lines = [exgen.line_of(t, u, s) for t, u, s, m in hs]
     stats = {}
     try:
